@@ -246,3 +246,63 @@ pub fn tmpl_potential(group: usize, shape: &ShapeSpec) -> Result<Tmpl<PotentialS
 /// marker so that unused-import lints stay quiet for trait imports used only through method syntax
 #[allow(dead_code)]
 fn _traits<S: Shape + Intersect, Q: Shape + Potential>() {}
+
+
+// ------------------------------------------------------------------------------------------------
+// reading a parameter vector (as returned by generate_basis()) without assuming its order
+
+/// Which named field each basis handle of a state drives, discovered by probing a clone of the state; fields the
+/// state does not expose as a freedom are taken from its JSON.
+pub struct ParamReader {
+    /// for every basis index: the field (0 length, 1 ratio, 2 angle, 3 x, 4 y, 5 phi) it drives
+    pub field_of: Vec<Option<usize>>,
+    pub fixed: [f64; 6],
+}
+
+impl ParamReader {
+    pub fn new<T: State + Serialize + Clone>(state: &T) -> Option<ParamReader> {
+        let probe = state.clone();
+        let before = field_values(&serde_json::to_value(&probe).ok()?);
+        let mut basis = probe.generate_basis();
+        let mut field_of = vec![None; basis.len()];
+        for bi in 0..basis.len() {
+            let orig = basis[bi].get_value();
+            let cand = if orig != 0.4321 { 0.4321 } else { 0.4567 };
+            basis[bi].set_value(cand);
+            if basis[bi].get_value().to_bits() == orig.to_bits() {
+                basis[bi].set_value(0.987);
+            }
+            if basis[bi].get_value().to_bits() == orig.to_bits() {
+                // the handle cannot move inside its bounds (degenerate range): nudge towards the other bound
+                basis[bi].set_value(orig * 0.5);
+            }
+            let now = field_values(&serde_json::to_value(&probe).ok()?);
+            for f in 0..6 {
+                if now[f].to_bits() != before[f].to_bits() && !field_of.contains(&Some(f)) {
+                    field_of[bi] = Some(f);
+                    break;
+                }
+            }
+            basis[bi].set_value(orig);
+        }
+        Some(ParamReader { field_of, fixed: before })
+    }
+
+    pub fn params(&self, v: &[f64]) -> Option<Params> {
+        if v.len() != self.field_of.len() {
+            return None;
+        }
+        let mut p = self.fixed;
+        for (i, f) in self.field_of.iter().enumerate() {
+            if let Some(f) = f {
+                p[*f] = v[i];
+            }
+        }
+        Some(Params { length: p[0], ratio: p[1], angle: p[2], x: p[3], y: p[4], phi: p[5] })
+    }
+
+    /// basis index driving a field
+    pub fn index_of(&self, field: usize) -> Option<usize> {
+        self.field_of.iter().position(|f| *f == Some(field))
+    }
+}
